@@ -959,10 +959,31 @@ class RTDCWriter:
                 **self.compression_kwargs)
             line_offset = 0
         else:
-            # TODO: test whether fixed length is long enough!
-            # Resize the dataset
             txt_dset = group[name]
             line_offset = txt_dset.shape[0]
+            str_info = h5py.check_string_dtype(txt_dset.dtype)
+            if (str_info is not None
+                    and str_info.length is not None
+                    and str_info.length < max_length):
+                # The fixed-length strings of the existing dataset are too
+                # short for the new lines. Re-create the dataset with a
+                # sufficient string length (otherwise, lines are truncated).
+                old_lines = list(txt_dset[:])
+                old_attrs = dict(txt_dset.attrs)
+                del group[name]
+                txt_dset = group.create_dataset(
+                    name,
+                    shape=(line_offset,),
+                    dtype=f"S{max_length}",
+                    maxshape=(None,),
+                    chunks=True,
+                    fletcher32=True,
+                    **self.compression_kwargs)
+                for ii, lbytes in enumerate(old_lines):
+                    txt_dset[ii] = lbytes
+                for key in old_attrs:
+                    txt_dset.attrs[key] = old_attrs[key]
+            # Resize the dataset
             txt_dset.resize(line_offset + lnum, axis=0)
 
         # Write the text data line-by-line
